@@ -3,6 +3,8 @@
 HOOK_COMMITS = ["1ba4448"]
 
 ENGINES = [
+    {"name": "m_sema", "path": "harness/vh/src/bin/m_sema.rs", "serves_properties": ["C05", "C06", "C07", "C08", "C18"],
+     "kind_free_text": "runtime monitor: scope-aware generated workspaces (ground truth recorded by the generator's sidecar) loaded into ide::AnalysisHost; by-construction binding oracle (C05), refs<=>goto census law (C06), rename + fresh re-analysis isomorphism (C07), rename refusal reference table over three packages (C08), completion scope sets and accept-and-resolve (C18)"},
     {"name": "m_robust", "path": "harness/vh/src/bin/m_robust.rs", "serves_properties": ["C10", "C20"],
      "kind_free_text": "runtime monitor: all-offsets x all-query-kinds sweep over generated, corpus and damaged workspaces loaded into ide::AnalysisHost; panic/abort monitor (C10) and range-validity monitor (C20) over the same executions"},
     {"name": "m_gram", "path": "harness/vh/src/bin/m_gram.rs", "serves_properties": ["C03", "C04"],
@@ -62,5 +64,37 @@ META = {
                        "whole-token for name-like results, token boundaries and focus-in-full for navigation targets."),
         "design_ref": "DESIGN.md §5 C20",
         "level_note": "Cursors inside a multi-byte character are not judged (not nameable by an LSP client; C15's domain). Multi-package workspaces are covered by C08/C17.",
+    },
+    "C05": {
+        "technique": "by-construction binding oracle: goto at every identifier the scope-aware generator emitted vs. the binding it recorded",
+        "level_text": ("Exploration: ~3x10^7 goto queries per quick run over ~2x10^5 shadowing-heavy multi-module workspaces; soundness (never a different declaration) everywhere, completeness on the supported core. "
+                       "Found and repaired: `let x = todo` dropping its binding, binders inside unary operands, value import shadowed by a same-named type, string-prefix binder without name, `let _ = e` never lowered."),
+        "design_ref": "DESIGN.md §5 C05",
+        "level_note": "Trusted base: the generator's own scoping model (hand-written from Gleam's rules) and the printer's offsets. Type-directed field access is judged on typed programs only.",
+    },
+    "C06": {
+        "technique": "pure law between two real APIs over an identifier census: references(t) == {tokens whose goto is the same declaration}, highlight == its per-file part",
+        "level_text": ("Exploration: ~7x10^6 goto/references queries per quick run over corpus, generated and damaged workspaces; no ground truth needed, so broken code is in scope. "
+                       "Found and repaired: spread binder `..rest` missing from its own references."),
+        "design_ref": "DESIGN.md §5 C06",
+        "level_note": "A defect mirrored identically in goto and references is invisible here (C05/C07 see it). Duplicate top-level definitions are not judged.",
+    },
+    "C07": {
+        "technique": "rename to a fresh name, re-analyse the edited workspace in a new host, compare the resolution graph under the position map; round trip; sidecar ground truth",
+        "level_text": ("Exploration: ~4x10^5 rename attempts per quick run, each accepted one followed by a full goto census of the edited workspace in a fresh AnalysisHost (4x10^7 re-checked identifiers). Held on everything observed."),
+        "design_ref": "DESIGN.md §5 C07",
+        "level_note": "Occurrences sampled (24 per workspace quick); single-package workspaces; fresh names cannot capture by construction.",
+    },
+    "C08": {
+        "technique": "reference refusal table: symbol kind x 52 candidate names x locality over a three-package workspace; prepare_rename <=> rename(valid)",
+        "level_text": ("Exploration (full cross product per sampled occurrence): ~6x10^7 rename calls per quick run. Found and repaired: constants renameable to any token; rename missing the locality gate."),
+        "design_ref": "DESIGN.md §5 C08",
+        "level_note": "Name classifier and kind->class table are the monitor's own; packages are built in-process with is_local as the loader computes it (the loader itself is C17's subject).",
+    },
+    "C18": {
+        "technique": "by-construction scope sets at generator-known holes, replacement-range check, accept-and-resolve in a fresh host; dot-completion visibility table",
+        "level_text": ("Exploration: ~2x10^5 holes per quick run. Found and repaired: aliased unqualified imports offered under the wrong name; opaque types' constructors offered after `m.`."),
+        "design_ref": "DESIGN.md §5 C18",
+        "level_note": "Value-name completion only (keywords/snippets and built-in constructors ignored both ways); field completion after `value.` needs well-typed programs (typed engine).",
     },
 }
